@@ -64,6 +64,19 @@ def num_ast(src, toks):
     return e
 
 
+def flat_index(x):
+    """`a.b.c` as one index node with two parts or as two nested index nodes with one part each is the same chain of
+    lookups: the default parser builds the first, the legacy parser the second. Compared in the flattened form."""
+    if isinstance(x, list):
+        return [flat_index(v) for v in x]
+    if not isinstance(x, dict):
+        return x
+    x = {k: flat_index(v) for k, v in x.items()}
+    if x.get("t") == "index" and isinstance(x.get("e"), dict) and x["e"].get("t") == "index":
+        return {"t": "index", "e": x["e"]["e"], "parts": x["e"]["parts"] + x["parts"]}
+    return x
+
+
 def norm_nums(x):
     """harness prints numbers as text: compare them as doubles"""
     if isinstance(x, list):
@@ -221,7 +234,8 @@ def run(chk):
         if r["k"] != "parsed":
             chk.disagree(f"c06:{fam}:crash:{src}", {"src": src}, "parse result", r, "crash in a parser")
             continue
-        ir, peg, rowan = r["ir"], r["peg"], r["rowan"]
+        ir, peg, rowan = flat_index(r["ir"]), flat_index(r["peg"]), r["rowan"]
+        r["same"] = ir == peg
         for name, p in (("ir", ir), ("peg", peg), ("rowan", rowan)):
             if p.get("k") == "crash":
                 chk.disagree(f"c06:{fam}:crash.{name}:{src}", {"src": src}, "accept or reject", p, f"{name} parser panicked")
